@@ -35,6 +35,12 @@ type DeadlineCase struct {
 	// context handed over is a child (WithValue) of the one described.
 	FarDeadline bool   `json:"far_deadline,omitempty"`
 	Derived     bool   `json:"derived,omitempty"`
+	// PrepHistory: what the evaluator went through before the context under
+	// test was given to it: "" (nothing), "validate-first" (a Prepare without any
+	// context, as hosts do to validate a script), "other-context-first" (a
+	// Prepare under a context that stays alive), "expired-first" (a Prepare and
+	// a run under a context that has already ended). Then SetContext + Prepare.
+	PrepHistory string `json:"prep_history,omitempty"`
 	Msg         string `json:"message,omitempty"`
 }
 
@@ -52,6 +58,27 @@ func runDeadline(c *DeadlineCase) error {
 			atomic.AddInt32(&traced, 1)
 			return &object.Void{}
 		})
+		if ctx != nil && c.PrepHistory != "" {
+			switch c.PrepHistory {
+			case "other-context-first":
+				other, ocancel := context.WithTimeout(context.Background(), 10*time.Minute)
+				_ = ocancel // stays alive as long as the evaluator
+				r.E.SetContext(other)
+			case "expired-first":
+				dead, dcancel := context.WithCancel(context.Background())
+				dcancel()
+				r.E.SetContext(dead)
+			}
+			if err, pan := r.Prepare(c.NoOpt); err != nil || pan != nil {
+				return nil, fmt.Errorf("first Prepare failed: %v %v", err, pan)
+			}
+			if c.PrepHistory == "expired-first" {
+				if _, xerr := r.E.Execute(map[string]interface{}{"N": 3}); xerr == nil {
+					return nil, fmt.Errorf("a run under an already-cancelled context (first Prepare) returned no error")
+				}
+				atomic.StoreInt32(&traced, 0)
+			}
+		}
 		if ctx != nil {
 			r.E.SetContext(ctx)
 		}
@@ -248,11 +275,21 @@ func endlessScript(rt *rapid.T) (string, string) {
 	}
 	shape := rapid.SampledFrom([]string{"top", "top", "function", "nested-functions", "function-in-loop", "recursion-with-loop", "foreach-endless", "after-work", "branching-recursion", "branching-recursion", "mutual-branching", "straight-line", "cheap-ops"}).Draw(rt, "shape")
 	pre := "trace(0); x = 0;\n"
+	// statements whose value nobody uses, before the spinning part and inside it
+	junk := []string{"", "", "len(\"abc\");", "1;", "x * 2;", "\"s\";", "[1, 2];", "N;", "junkf(1);", "x == 0;", "true ? 1 : 2;"}
+	j := rapid.SampledFrom(junk).Draw(rt, "junk")
+	if j == "junkf(1);" {
+		pre += "function junkf(a) { return a + 1; }\n"
+	}
+	pre += j + "\n"
+	if jb := rapid.SampledFrom(junk).Draw(rt, "junkbody"); jb != "" && jb != "junkf(1);" {
+		bodies = append(bodies, jb, jb+" x = x + 1;", "x = 1; "+jb)
+	}
 	switch shape {
 	case "top":
 		return pre + loop(), shape
 	case "function":
-		return pre + "function spin(a) { " + loop() + " return a; }\nspin(1);", shape
+		return pre + "function spin(a) { " + rapid.SampledFrom(junk[:8]).Draw(rt, "junkfn") + " " + loop() + " return a; }\nspin(1);", shape
 	case "nested-functions":
 		d := rapid.IntRange(2, 4).Draw(rt, "calldepth")
 		var b strings.Builder
@@ -314,6 +351,7 @@ func TestC09(t *testing.T) {
 			pr := gen.Program(rt, gen.ProgOpts{Depth: 2, Block: 3, Funcs: 1, Ternary: true, Switch: true, EarlyRet: true, NoSqrtFold: true})
 			c.Script = lang.ProgramText(pr.P)
 			c.Ctx = rapid.SampledFrom([]string{"long-control", "long-control", "cancelled", "past", "cancel-after-runs", "cancel-after-runs"}).Draw(rt, "cctx")
+			c.PrepHistory = rapid.SampledFrom([]string{"", "", "validate-first", "other-context-first", "expired-first"}).Draw(rt, "cprephistory")
 			c.FarDeadline = rapid.Bool().Draw(rt, "cfardeadline")
 			c.Derived = gen.Uniform(rt, "cderived", 4) == 0
 			if c.Ctx == "cancel-after-runs" {
@@ -324,6 +362,7 @@ func TestC09(t *testing.T) {
 			}
 		} else {
 			c.Endless = true
+			c.PrepHistory = rapid.SampledFrom([]string{"", "", "", "validate-first", "other-context-first", "expired-first"}).Draw(rt, "prephistory")
 			c.Script, shape = endlessScript(rt)
 			c.Ctx = rapid.SampledFrom([]string{"cancelled", "past", "deadline", "deadline", "deadline", "cancel-later", "cancel-later"}).Draw(rt, "ctx")
 			c.FarDeadline = rapid.Bool().Draw(rt, "fardeadline")
@@ -341,9 +380,10 @@ func TestC09(t *testing.T) {
 		}
 		col.Class("shape:" + shape)
 		col.Class("context:" + c.Ctx)
+		col.Class("prepare-history:" + c.PrepHistory)
 		cc := c
-		col.Case(fmt.Sprint(c.Script, c.Ctx, c.Millis, c.UseRun, c.NoOpt), c.Endless && (c.Ctx == "deadline" || c.Ctx == "cancel-later"), func() interface{} {
-			return map[string]interface{}{"script": cc.Script, "context": cc.Ctx, "millis": cc.Millis, "run": cc.UseRun, "noopt": cc.NoOpt}
+		col.Case(fmt.Sprint(c.Script, c.Ctx, c.Millis, c.UseRun, c.NoOpt, c.PrepHistory), c.Endless && (c.Ctx == "deadline" || c.Ctx == "cancel-later"), func() interface{} {
+			return map[string]interface{}{"script": cc.Script, "context": cc.Ctx, "millis": cc.Millis, "run": cc.UseRun, "noopt": cc.NoOpt, "prepare_history": cc.PrepHistory}
 		})
 	})
 }
